@@ -460,7 +460,8 @@ namespace bluetoe
                             ++out;
                             *out = read_size + 3;
                             ++out;
-                            out = bluetoe::details::write_32bit( out, buffers_[next_buffer_].crc() );
+                            // checksum over the start address only; data might have been received already
+                            out = bluetoe::details::write_32bit( out, check_sum );
 
                             out_size = out - out_buffer;
                         }
